@@ -5,7 +5,7 @@ From WhawtyRun Require Export Common.
 Open Scope N_scope.
 
 Inductive case :=
-| Timing (evs : list hev) (rounds : nat) (ambiguous : bool)
+| Timing (evs : list hev) (rounds : nat) (ambiguous : bool) (uncovered : nat)
 | StoreSwitch (ok : bool)
 | Elig (dir_mode : N) (entries : list hentry) (ran : list bytes)
 | AgentNotify (after_failures after_success : nat).
@@ -29,7 +29,7 @@ Definition sort_bytes (l : list bytes) : list bytes := fold_right insert_sorted 
 
 Definition agrees (c : case) : bool :=
   match c with
-  | Timing evs rounds ambiguous =>
+  | Timing evs rounds ambiguous _ =>
       (* near a timer edge one more or one fewer round is a legal interleaving *)
       if ambiguous then (model_rounds evs - 1 <=? rounds)%nat && (rounds <=? model_rounds evs + 1)%nat
       else (rounds =? model_rounds evs)%nat
@@ -48,7 +48,9 @@ Definition intervals (evs : list hev) : nat :=
 
 Definition spec_ok (c : case) : bool :=
   match c with
-  | Timing evs rounds _ =>
+  | Timing evs rounds _ uncovered =>
+      (* every notification is followed by the start of a round at or after it *)
+      (uncovered =? 0)%nat &&
       ((notifications evs =? 0)%nat || (1 <=? rounds)%nat) &&
       (rounds <=? 2 * intervals evs + 1)%nat && (rounds <=? notifications evs)%nat
   | StoreSwitch ok => ok
